@@ -263,9 +263,24 @@ func c03Run(e *core.Env) {
 		}
 	})
 	e.SetBound("position_chain_steps", chainN)
+	if e.Take() {
+		// prices in the root file, positions and an assertion in two included files: the
+		// valued report under every loader schedule equals the single-file one
+		root, a, b := multiFileJournal()
+		body := append(append(append([]jr.Dir(nil), root[len(opensPrefix()):]...), a...), b...)
+		cfg := ref.BalCfg{Valuation: "CHF", Interval: ref.Daily, NoClose: true}
+		if key, detail, _, _ := c03One(drv, body, cfg); key != "" {
+			e.Violation(key, detail, balCase{body, cfg}, nil)
+		} else {
+			multiFileSchedules(e, drv, "C03", "balance-v-CHF-days", root, a, b, append(append([]string{"balance", "--color=false", "--digits", "8"}, cfg.Args()...), "root.knut"))
+		}
+	}
 }
 
 func c03Replay(e *core.Env, data json.RawMessage) (bool, string) {
+	if h, v, d := replayMultiFile(e, data); h {
+		return v, d
+	}
 	var cs balCase
 	if err := json.Unmarshal(data, &cs); err != nil {
 		return false, err.Error()
